@@ -62,6 +62,13 @@ def gen_where(rng, graphs):
         return ["group", [["bgp", [[v("s"), c(rng.choice(PR)), v("o")]]], ["bind", ["+", v("o"), c(Literal(1))], "n"]]]
     if k < 0.65 and graphs:
         return ["group", [["graph", v("g") if rng.random() < 0.5 else c(rng.choice(graphs)), ["group", [["bgp", [[v("s"), v("p"), v("o")]]]]]]]]
+    if k < 0.69:
+        # identical solutions (the sub-select projects the distinguishing variable away, or both UNION branches bind the same value): a template
+        # blank node is fresh for each of them
+        if rng.random() < 0.5:
+            return ["group", [["subselect", dict(where=["group", [["bgp", [[v("s"), c(rng.choice(PR)), v("o")]]]]], proj=["s"], distinct=False)]]]
+        pr_ = rng.choice(PR)
+        return ["group", [["union", ["group", [["bgp", [[v("s"), c(pr_), v("o")]]]]], ["group", [["bgp", [[v("s"), c(pr_), v("o")]]]]]]]]
     if k < 0.72:
         return ["group", [["bgp", [[v("s"), c(PR[0]), v("o")]]], ["optional", ["group", [["bgp", [[v("s"), c(PR[1]), v("n")]]]]]]]]
     if k < 0.78:
@@ -105,6 +112,9 @@ def gen_op(rng, graphs, multi):
             # chain shape: delete (also) what the OPTIONAL part matched; the pattern must still be evaluated once, on the state before any deletion
             dele = [[None, [v("o"), where[1][1][1][1][0][1][0][1], v("n")]]] + ([[None, [v("s"), where[1][0][1][0][1], v("o")]]] if rng.random() < 0.6 else [])
             if rng.random() < 0.6: ins = None
+        if where[1] and where[1][0][0] in ("subselect", "union") and len(where[1]) == 1 and rng.random() < 0.8:
+            ins = [[None, [v("s"), c(rng.choice(PR)), ["bn", "t0"]]]] + ([[None, [["bn", "t0"], c(rng.choice(PR)), v("s")]]] if rng.random() < 0.4 else [])
+            if rng.random() < 0.6: dele = None
         if vars_ == ["m", "o", "s", "z"] and rng.random() < 0.8:
             # deleting ?s p ?o for one solution removes the first step of another solution's OPTIONAL part; ?z p2 ?m is only reachable through it
             dele = [[None, [v("s"), where[1][0][1][0][1], v("o")]], [None, [v("z"), where[1][1][1][1][0][1][1][1], v("m")]]]
